@@ -2,6 +2,7 @@
 //   -mix c09   issue / edit / mint / burn / transfer-owner histories (default)
 //   -mix c10   conversion histories: deploy, native<->ERC20, hook, fee-token swaps
 //   -mix pure  LossLessSwap and fee-factor cases (no state)
+//   -mix base  default environment (mock EVM of /repo), operations that do not need the harness EVM
 package main
 
 import (
@@ -14,6 +15,11 @@ import (
 func main() {
 	mix := flag.String("mix", "c09", "operation mix: c09 | c10 | pure")
 	o := hx.ParseOpts()
+	if *mix == "base" {
+		env := hx.NewEnv()
+		hx.RunHistories(env, token.NewFor(env), o)
+		return
+	}
 	env, evm := token.NewEnv()
 	hx.RunHistories(env, token.New(env, evm, *mix), o)
 }
